@@ -1,6 +1,7 @@
 SPECIFICATION Spec
 CONSTANTS
   Modes = {"life"}
+  MaxEntries = 3
   ExportScripts = TRUE
 VIEW View
 CHECK_DEADLOCK FALSE
